@@ -46,7 +46,7 @@ def floor_at(thr, kind, c, d):
     return thr[c, d]
 
 
-def make_gmm(B, C, D, floor="matrix", pre="", simplex=False, **kw):
+def make_gmm(B, C, D, floor="matrix", pre="", simplex=False, order="floors-first", **kw):
     """a GMM with symbolic weights>0, means, floors>0 and variances (clamped by the setter).
     returns (machine, P) with P the oracle's view of the parameters (nested lists)."""
     gmm = B.mod("gmm")
@@ -65,8 +65,21 @@ def make_gmm(B, C, D, floor="matrix", pre="", simplex=False, **kw):
     v = B.arr(pre + "v", (C, D), pos=True)
     m.weights = B.copy(w)
     m.means = B.copy(mu)
-    m.variance_thresholds = B.copy(thr) if floor != "scalar" else thr
-    m.variances = B.copy(v)
+    if order == "floors-first":
+        m.variance_thresholds = B.copy(thr) if floor != "scalar" else thr
+        m.variances = B.copy(v)
+    else:
+        # variances first (clamped by the default floor), the machine is used once, then the floors
+        # are raised/lowered: the visible state must be the same as with floors-first, provided the
+        # floors are at least the default (machine epsilon)
+        m.variances = B.copy(v)
+        if order == "floors-after-use":
+            m.log_likelihood(B.np.zeros((1, D)))
+        m.variance_thresholds = B.copy(thr) if floor != "scalar" else thr
+        import numpy as _np2
+
+        for t in _np2.asarray(thr, dtype=object).flat:
+            B.assume(t >= 2.220446049250313e-16)
     P = dict(
         C=C,
         D=D,
